@@ -89,11 +89,19 @@ func (w *faultyWorld) RemoveTag(id b6.FeatureID, key string) error {
 }
 
 type c26Req struct {
+	// visible: a tag (under a key no other request uses) that must be
+	// readable in the world once the caller was told the change applied
+	visible *c26Visible
 	calls   int // mutating world calls the change makes when it applies
 	expr    string
 	ok      bool     // the model says the change applies
 	ids     []string // ids the model says it modifies
 	comment string
+}
+
+type c26Visible struct {
+	id       b6.FeatureID
+	key, val string
 }
 
 func idsOfLiteral(n *pb.NodeProto) ([]string, bool) {
@@ -285,6 +293,30 @@ func runC26(rc *RC) {
 			}
 		}
 	}
+	// told "applied" => the change is in the world the request addressed
+	// (all requests address the default world)
+	if cfg != 1 {
+		var w b6.World
+		if !rc.Guard(name+"/panic", func() { w = s.worlds.FindOrCreateWorld(b6.FeatureID{}) }) {
+			return
+		}
+		for c := range results {
+			for _, r := range results[c] {
+				if v := r.req.visible; v != nil && r.req.ok && r.err == nil {
+					got := ""
+					if f := w.FindFeatureByID(v.id); f != nil {
+						if t := f.Get(v.key); t.IsValid() {
+							got = t.Value.String()
+						}
+					}
+					if got != v.val {
+						rc.Fail(name+"/applied-change-not-in-the-world", "client %d was told that %s applied, but afterwards %s has %s=%q in the world the request addressed (expected %q)", c, r.req.expr, v.id, v.key, got, v.val)
+						return
+					}
+				}
+			}
+		}
+	}
 	rc.SetNontrivial(failing > 0 && succeeding > 0)
 }
 
@@ -347,6 +379,11 @@ func c26Gen(rc *RC, g *cityGen, rings []b6.FeatureID, client int, depth int) c26
 		cid := b6.FeatureID{Type: b6.FeatureTypeCollection, Namespace: nsB, Value: uint64(100 + client)}
 		return c26Req{expr: fmt.Sprintf("add-collection /%s {0: (tag %q %q)} {/%s: 1, /%s: 2}", cid, k, v, f, missing), ok: true, calls: 1, ids: []string{cid.String()}, comment: "a collection (never rejected)"}
 	case 0:
+		if rc.Pct(40) {
+			// a key of its own: nothing else can overwrite or remove it
+			uk := "u" + v
+			return c26Req{expr: fmt.Sprintf("add-tag /%s (tag %q %q)", f, uk, v), ok: true, calls: 1, ids: []string{f.String()}, comment: "tag (under a key of its own) on an existing point", visible: &c26Visible{id: f, key: uk, val: v}}
+		}
 		return c26Req{expr: fmt.Sprintf("add-tag /%s (tag %q %q)", f, k, v), ok: true, calls: 1, ids: []string{f.String()}, comment: "tag on an existing point"}
 	case 1:
 		return c26Req{expr: fmt.Sprintf("add-tag /%s (tag %q %q)", missing, k, v), ok: false, calls: 1, comment: "tag on a feature that does not exist"}
